@@ -175,6 +175,28 @@ def exhaustive_cases(depth: int, svc_type: str, durs: Tuple[int, int], kind: str
     return out
 
 
+def timing_cases() -> List[dict]:
+    """one trace per shipped class: its timed transition (restart for a service, request-install for an application) and a fix
+    interrupted by pause / stop / close, each followed by enough ticks to complete — so that a class whose `apply_timestep` override
+    skips the base countdown in some state shows up whichever class it is (not only the classes the random traces happen to restart)"""
+    out = []
+    for t in svc_types():
+        name = "arp" if t == "arp" else t
+        ops = [{"op": "isvc", "type": t, "listen": [], "health": "GOOD", "fix": 2, "cfg": True},
+               {"op": "sreq", "name": name, "r": "restart"}] + [{"op": "tick"}] * 7 + \
+              [{"op": "sreq", "name": name, "r": "fix"}, {"op": "sreq", "name": name, "r": "pause"}] + [{"op": "tick"}] * 3 + \
+              [{"op": "sreq", "name": name, "r": "resume"}, {"op": "sreq", "name": name, "r": "fix"}, {"op": "sreq", "name": name, "r": "stop"}] + \
+              [{"op": "tick"}] * 3 + [{"op": "sreq", "name": name, "r": "start"}, {"op": "sreq", "name": name, "r": "restart"},
+                                      {"op": "sreq", "name": name, "r": "disable"}] + [{"op": "tick"}] * 7
+        out.append({"node": {"power": "ON", "up": 0, "down": 0, "kind": "computer"}, "ops": ops, "focus": "timing"})
+    for t in app_types():
+        ops = [{"op": "runinst", "name": t}, {"op": "rinst", "name": t}, {"op": "tick"}, {"op": "areq", "name": t, "r": "close"},
+               {"op": "tick"}, {"op": "tick"}, {"op": "areq", "name": t, "r": "fix"}, {"op": "areq", "name": t, "r": "close"}] + \
+              [{"op": "tick"}] * 3
+        out.append({"node": {"power": "ON", "up": 0, "down": 0, "kind": "computer"}, "ops": ops, "focus": "timing"})
+    return out
+
+
 # --------------------------------------------------------------------------------------------------- implementation side
 class Impl:
     """One real Computer plus the bookkeeping needed to print the same canonical lines as the Lean driver."""
